@@ -50,10 +50,11 @@ BOUNDS = (
     "collector: every op script of length <= %d (quick 4 / thorough 5) over 5 ops, both modes; "
     "socket loop: every producer step script <= 4 steps (5 kinds quick, 6 thorough) and every exchange response script "
     "<= %d steps (quick 3 / thorough 4), 0..n inputs followed by EOS or by a cancel batch plus one further input, on_cancel raising or not; "
-    "HTTP cancel branch: all 32 combinations of its five boolean inputs. pyarrow objects are concrete."
+    "HTTP cancel branch: all 32 combinations of its five boolean inputs; input coercion: all 486 perturbations of a 3-column input (order x type variant x field set) "
+    "on _coerce_input_batch and all 54 of a 2-column input through the socket loop. pyarrow objects are concrete."
 ) % (pick(4, 5), pick(3, 4))
 OUTSIDE = (
-    "_coerce_input_batch (Arrow select/cast: inputs here already have the declared schema); stream headers; "
+    "Arrow's own select/cast semantics (run concretely: which type pairs Arrow considers castable is taken from pyarrow, only three variants per column are used); stream headers; "
     "HTTP producer/exchange turn runners (stubbed in (c): only the branch selection is decided); "
     "client session objects (StreamSession/HttpStreamSession) refusing use after cancel — exercised only in the (c) replay; "
     "lock-step interleaving of client and server (requests are pre-buffered in memory); shm / external-location routes; "
@@ -705,3 +706,184 @@ def http_cancel_branch(producer: bool, cancel: bool, token: bool, known: bool, c
     if _H["cancels"] != 0:
         return False
     return _H["turns"] == (["producer"] if producer else ["exchange"])
+
+
+# ---------------------------------------------------------------------------
+# (d) input-schema perturbations: inputs reach the state with the DECLARED input schema
+# ---------------------------------------------------------------------------
+# Every perturbation is a symbolic choice: column permutation x per-column type variant
+# (declared / narrower-compatible / incompatible) x field set (same / extra column / missing column).
+
+_CO_DECL = (("x", pa.int64()), ("y", pa.float64()), ("z", pa.int32()))
+_CO_SCHEMA3 = pa.schema([pa.field(n, t) for n, t in _CO_DECL])
+# per column: (declared type, value), (narrower type, same value), (string that cannot be parsed)
+_CO_VARIANTS = (
+    ((pa.int64(), 3), (pa.int32(), 3), (pa.string(), "abc")),
+    ((pa.float64(), 2.5), (pa.float32(), 2.5), (pa.string(), "abc")),
+    ((pa.int32(), 7), (pa.int8(), 7), (pa.string(), "abc")),
+)
+_CO_VALUES = (3, 2.5, 7)
+_PERMS3 = ((0, 1, 2), (0, 2, 1), (1, 0, 2), (1, 2, 0), (2, 0, 1), (2, 1, 0))
+_PERMS2 = ((0, 1), (1, 0))
+_FS_SAME, _FS_EXTRA, _FS_MISSING = 0, 1, 2
+
+
+def _ci(i: int, n: int) -> int:
+    for j in range(n):
+        if i == j:
+            return j
+    raise HarnessModelError("index out of range")
+
+
+def _perturbed(ncols: int, perm: int, tv: tuple, fieldset: int) -> pa.RecordBatch:
+    order = (_PERMS3 if ncols == 3 else _PERMS2)[perm]
+    fields, arrays = [], []
+    for pos in order:
+        if fieldset == _FS_MISSING and pos == ncols - 1:
+            continue
+        typ, val = _CO_VARIANTS[pos][tv[pos]]
+        fields.append(pa.field(_CO_DECL[pos][0], typ))
+        arrays.append(pa.array([val], type=typ))
+    if fieldset == _FS_EXTRA:
+        fields.append(pa.field("extra", pa.int64()))
+        arrays.append(pa.array([1], type=pa.int64()))
+    return pa.RecordBatch.from_arrays(arrays, schema=pa.schema(fields))
+
+
+def _coercion_expected(ncols: int, tv: tuple, fieldset: int) -> bool:
+    """From the property statement: accepted iff same field set and every column compatibly typed."""
+    if fieldset != _FS_SAME:
+        return False
+    for pos in range(ncols):
+        if tv[pos] == 2:
+            return False
+    return True
+
+
+def _received_ok(got: pa.RecordBatch, schema: pa.Schema, ncols: int) -> bool:
+    if got.schema != schema or got.num_rows != 1:
+        return False
+    for pos in range(ncols):
+        if got.column(pos)[0].as_py() != _CO_VALUES[pos]:
+            return False
+    return True
+
+
+@cond(q=40, t=120, encoded=[wire._coerce_input_batch], bound="3-column declared input schema: all 6 column orders x 3 type variants per column (declared / narrower / unparseable string) x field set same / extra / missing (486 inputs)")
+def coerce_input_batch_table(perm: int, t0: int, t1: int, t2: int, fieldset: int) -> bool:
+    """
+    pre: 0 <= perm <= 5 and 0 <= t0 <= 2 and 0 <= t1 <= 2 and 0 <= t2 <= 2 and 0 <= fieldset <= 2
+    post: _
+    """
+    tv = (_ci(t0, 3), _ci(t1, 3), _ci(t2, 3))
+    fs = _ci(fieldset, 3)
+    batch = _perturbed(3, _ci(perm, 6), tv, fs)
+    want = _coercion_expected(3, tv, fs)
+    try:
+        got = wire._coerce_input_batch(batch, _CO_SCHEMA3)
+    except TypeError as e:
+        return (not want) and "Input schema mismatch" in str(e)
+    except Exception:  # noqa: BLE001
+        return False
+    return want and _received_ok(got, _CO_SCHEMA3, 3)
+
+
+_CO_SCHEMA2 = pa.schema([pa.field(n, t) for n, t in _CO_DECL[:2]])
+_CO_SEEN: list = []
+
+
+@dataclass
+class _CoState(ExchangeState):
+    def exchange(self, input, out, ctx) -> None:  # type: ignore[no-untyped-def]
+        _CO_SEEN.append(input.batch)
+        out.emit(_BATCHES[0])
+
+
+class _CoProto(Protocol):
+    def co(self) -> Stream[ExchangeState]: ...
+
+
+class _CoImpl:
+    def co(self) -> Stream[_CoState]:
+        return Stream(output_schema=_SCHEMA, state=_CoState(), input_schema=_CO_SCHEMA2)
+
+
+_CO_SERVER = srv.RpcServer(_CoProto, _CoImpl(), server_id="srv", ipc_validation=IpcValidation.FULL)
+
+
+def _co_request(batch: pa.RecordBatch) -> bytes:
+    b = BytesIO()
+    with ipc.new_stream(b, batch.schema) as w:
+        w.write_batch(batch)
+    return b.getvalue()
+
+
+def _co_socket(perm: int, tv: tuple, fs: int, real: bool) -> bool:
+    del _CO_SEEN[:]
+    batch = _perturbed(2, perm, tv, fs)
+    request = _co_request(batch)
+    tr = _MemTransport(request)
+    info = _CO_SERVER._methods["co"]
+    try:
+        if real:
+            _CO_SERVER._serve_stream(tr, info, {})
+        else:
+            _serve_stream_rg(_CO_SERVER, tr, info, {})
+        data, logs, err, trailing = _client_parse(tr.writer.getvalue())
+    except Exception:  # noqa: BLE001
+        return False
+    if tr.reader.tell() != len(request):
+        return False
+    if _coercion_expected(2, tv, fs):
+        # coerced: the state saw exactly the declared schema and the same values; one output
+        return err is None and len(_CO_SEEN) == 1 and _received_ok(_CO_SEEN[0], _CO_SCHEMA2, 2) and len(data) == 1 and data[0].equals(_BATCHES[0])
+    # rejected: the state never ran, the client gets the schema-mismatch error
+    return len(_CO_SEEN) == 0 and data == [] and err is not None and err.error_type == "TypeError" and "Input schema mismatch" in err.error_message
+
+
+def _replay_coercion(args: dict) -> str | None:
+    """Un-stubbed: real pipe transport (serve_pipe) and the real HTTP stack, real client sessions."""
+    from vgi_rpc.http import http_connect, make_sync_client
+    from vgi_rpc.rpc import serve_pipe
+
+    tv = (args["t0"], args["t1"])
+    want = _coercion_expected(2, tv, args["fieldset"])
+    batch = _perturbed(2, args["perm"], tv, args["fieldset"])
+    problems = []
+
+    def one(label, proxy) -> None:  # type: ignore[no-untyped-def]
+        del _CO_SEEN[:]
+        s = proxy.co()
+        try:
+            s.exchange(ty.AnnotatedBatch(batch=batch))
+            accepted = True
+        except RpcError:
+            accepted = False
+        finally:
+            s.close()
+        if accepted != want:
+            problems.append("%s: input %s %s" % (label, str(batch.schema).replace("\n", ", "), "accepted" if accepted else "rejected"))
+        elif accepted and not (len(_CO_SEEN) == 1 and _CO_SEEN[0].schema == _CO_SCHEMA2):
+            problems.append("%s: state received %s instead of the declared %s" % (label, str(_CO_SEEN[0].schema).replace("\n", ", ") if _CO_SEEN else None, str(_CO_SCHEMA2).replace("\n", ", ")))
+        elif not accepted and _CO_SEEN:
+            problems.append("%s: state ran on a rejected input" % label)
+
+    with serve_pipe(_CoProto, _CoImpl()) as proxy:
+        one("pipe", proxy)
+    try:
+        with http_connect(_CoProto, client=make_sync_client(srv.RpcServer(_CoProto, _CoImpl()), token_key=b"k" * 32)) as proxy:
+            one("http", proxy)
+    except Exception as e:  # noqa: BLE001
+        problems.append("http replay failed: %r" % e)
+    return "; ".join(problems) or None
+
+
+@cond(q=40, t=120, encoded=[wire._coerce_input_batch, srv.RpcServer._serve_stream], stubs=[_CLOCK_STUB], replay=_replay_coercion,
+      signature=lambda a, c: "C10:input-coercion:state-saw-undeclared-schema",
+      bound="exchange stream with a 2-column declared input schema through the real socket loop: both column orders x 3 type variants per column x field set same / extra / missing (54 inputs)")
+def exchange_input_reaches_state_with_declared_schema(perm: int, t0: int, t1: int, fieldset: int) -> bool:
+    """
+    pre: 0 <= perm <= 1 and 0 <= t0 <= 2 and 0 <= t1 <= 2 and 0 <= fieldset <= 2
+    post: _
+    """
+    return _co_socket(_ci(perm, 2), (_ci(t0, 3), _ci(t1, 3)), _ci(fieldset, 3), real=False)
